@@ -13,7 +13,7 @@ import trace
 from common import Ctx, Counters, Failure, main_wrapper, run_workers, load_replay
 
 PID = "C03"
-RULE = ("per configuration (every output type x formats that together use every data source x chains incl. exclude_spawns_of x real "
+RULE = ("per configuration (caller environment inherited / empty / with odd entries x every output type x formats that together use every data source x chains incl. exclude_spawns_of x real "
         "sink states: directory absent, no permission as non-root, /dev/full (ENOSPC), unread datagram socket with a full queue, controlling terminal with the caller as foreground and as background job): a "
         "traced dry run lists the I/O system calls issued between wrapper entry and the recording real-exec; then EVERY such call is "
         "failed once with each plausible errno for that call (all single faults; every errno also persistently from that call on, except EINTR), short transfers (write/send returning 1 or 10, read returning 0 or 1), EAGAIN (and "
@@ -65,8 +65,10 @@ def configs(out, quick, rng):
     for oname, oval, state in outs:
         for fname, f in fmts:
             for ch in chains:
-                allc.append({"name": "%s/%s/%s" % (oname, fname, "chain" if ch else "nochain"), "output": oval, "format": f, "chain": ch,
-                             "state": state, "oname": oname})
+                # the caller's environment: as inherited, empty (no PWD, HOME, LOGNAME ... at all), or with odd entries
+                em = ["inherit", "empty", "odd"][len(allc) % 3]
+                allc.append({"name": "%s/%s/%s/env-%s" % (oname, fname, "chain" if ch else "nochain", em), "output": oval, "format": f, "chain": ch,
+                             "state": state, "oname": oname, "envmode": em})
     rng.shuffle(allc)
     # every output at least once in the quick tier, everything in thorough
     if quick:
@@ -100,6 +102,10 @@ def scenario_ops(cfg, out):
     if "noperm" in st:
         # file owned by root, mode 0600; the call runs as uid 1000
         ops += [drv.op("S", 9, "file", out + "/noperm.log"), drv.op("U", -1, -1, -1, 1000, 1000, 1000)]
+    if cfg.get("envmode") == "empty":
+        ops.append(drv.op_env([]))
+    elif cfg.get("envmode") == "odd":
+        ops.append(drv.op_env([b"PWD=", b"HOME", b"=x", b"LOGNAME=", b"PWD=relative/path", b"SUDO_USER=" + b"s" * 300]))
     if "ctty" in st:
         ops += [drv.op("f"), drv.op("T")] + ([drv.op("b")] if "bg" in st else [])
     ops.append(drv.op_exec("e", b"/bin/prog", [b"prog", b"a"], [b"E=1"], ret=-1, err=13))
